@@ -54,3 +54,8 @@ add('C14', 'property-based testing / grammar-based fuzzing: generated, mutated a
     'no character may have been skipped, intervals must be well formed, bound constants declared, and the first evaluate() must return or raise RTAMTException.',
     'Trusted: vlib/lang.py (tokenizer transcribed from LtlLexer.g4, all-paths recogniser for the context-free language of the parser grammars); termination observed under a 20 s alarm.',
     'DESIGN.md section 5 C14')
+add('C15', 'property-based testing: metamorphic relation between a canonical and a generated variant spelling of the same formula (aliases, separators, minimal/extra parentheses from an independent precedence table), plus LTL-vs-STL front end (Hypothesis)',
+    'Each generated formula is printed canonically and as a variant driven by a choice tape; both are evaluated on the same trace and must agree exactly, a variant '
+    'that raises is a difference. Covers all aliases, ":" separators, dropped ";"/head, precedence/associativity of every binary and prefix operator, unless sugar and the LTL front end.',
+    'Trusted: vlib/spell.py precedence table (transcribed from the order of the grammar alternatives) and vlib/lang.py recogniser used to validate the printed variant.',
+    'DESIGN.md section 5 C15')
